@@ -32,6 +32,9 @@ type synthFS struct {
 	Hook func(op, path string)
 	// ChunkMax limits the bytes returned per Read (0 = unlimited).
 	ChunkMax int
+	// EOFWithData makes readers return their final bytes together with io.EOF
+	// (legal under the io.Reader contract; tar entry readers do this).
+	EOFWithData bool
 
 	opens  atomic.Int64
 	reads  atomic.Int64
@@ -156,6 +159,9 @@ func (f *synthFile) Read(b []byte) (int, error) {
 	}
 	n, err := f.r.Read(b)
 	f.n += n
+	if err == nil && f.s.EOFWithData && f.r.Len() == 0 {
+		err = io.EOF
+	}
 	return n, err
 }
 
